@@ -73,7 +73,10 @@ fn convert_to_ntp(ts: Timestamp) -> NtpTimestamp {
 }
 
 // FIXME: Remove this once we have more proper time abstractions.
-fn add_correction(ts: Timestamp, correction: TimeInterval) -> Timestamp {
+//
+// Returns None when the corrected time is not representable as a PTP timestamp
+// (both inputs can be chosen by the server).
+fn add_correction(ts: Timestamp, correction: TimeInterval) -> Option<Timestamp> {
     let correction_nanos = correction.0 >> 16;
     let correction_seconds = correction_nanos.div_euclid(1_000_000_000);
     let correction_nanos = correction_nanos.rem_euclid(1_000_000_000);
@@ -90,8 +93,7 @@ fn add_correction(ts: Timestamp, correction: TimeInterval) -> Timestamp {
         .wrapping_add(intermediate_nanos.div_euclid(1_000_000_000).into());
     let corrected_nanos = intermediate_nanos.rem_euclid(1_000_000_000);
 
-    Timestamp::new(corrected_seconds, corrected_nanos)
-        .expect("Calculated nanoseconds should be between 0 and 1_000_000_000")
+    Timestamp::new(corrected_seconds, corrected_nanos).ok()
 }
 
 impl<'a, Mutex, Controller> CsptpSource<'a, Mutex, Controller> {
@@ -185,14 +187,27 @@ impl<Mutex: StateMutex, Controller: SourceController> CsptpSource<'_, Mutex, Con
                     continue;
                 };
 
+                let (Some(request_send_time), Some(response_send_time)) = (
+                    add_correction(
+                        measurement.request_send_time,
+                        measurement.request_correction,
+                    ),
+                    add_correction(
+                        measurement.response_send_time,
+                        measurement.response_correction,
+                    ),
+                ) else {
+                    // The server sent timestamps that leave the representable
+                    // range once corrected, ignore the response.
+                    // FIXME: Add logging for this.
+                    continue;
+                };
+
                 self.controller.set_usable(true);
                 self.controller.handle_measurement(Measurement {
                     sender_id: self.local_clock,
                     receiver_id: self.remote_clock,
-                    sender_ts: convert_to_ntp(add_correction(
-                        measurement.request_send_time,
-                        measurement.request_correction,
-                    )),
+                    sender_ts: convert_to_ntp(request_send_time),
                     receiver_ts: convert_to_ntp(measurement.request_recv_time),
                     root_delay: NtpDuration::ZERO,
                     root_dispersion: NtpDuration::ZERO,
@@ -202,10 +217,7 @@ impl<Mutex: StateMutex, Controller: SourceController> CsptpSource<'_, Mutex, Con
                 self.controller.handle_measurement(Measurement {
                     sender_id: self.remote_clock,
                     receiver_id: self.local_clock,
-                    sender_ts: convert_to_ntp(add_correction(
-                        measurement.response_send_time,
-                        measurement.response_correction,
-                    )),
+                    sender_ts: convert_to_ntp(response_send_time),
                     receiver_ts: convert_to_ntp(measurement.response_recv_time),
                     root_delay: NtpDuration::ZERO,
                     root_dispersion: NtpDuration::ZERO,
@@ -220,7 +232,8 @@ impl<Mutex: StateMutex, Controller: SourceController> CsptpSource<'_, Mutex, Con
                             state.csptp_state.grandmaster_priority_2 = status.grandmaster_priority2;
                             state.csptp_state.grandmaster_clock_quality =
                                 status.grandmaster_clock_quality;
-                            state.csptp_state.steps_removed = status.steps_removed + 1;
+                            state.csptp_state.steps_removed =
+                                status.steps_removed.saturating_add(1);
                             state.csptp_state.ptp_timescale = measurement.ptp_timescale;
                             state.csptp_state.time_traceable = measurement.time_traceable;
                             state.csptp_state.frequency_traceable = measurement.frequency_traceable;
